@@ -11,6 +11,27 @@ NOTES = "All checks are bounded-exhaustive model checking of the real Go code (h
 NOT_APPLICABLE = {}
 
 TEXT = {
+    "C13": dict(
+        engine="graph (E2)",
+        design_ref="DESIGN.md §3 C13",
+        technique="explicit-state BFS over the real ObjectTree operations with a reference tree; exhaustive lookup-expression enumeration in every state",
+        text="All histories of newObject/append/appendAfter/detach/free (issued under their documented preconditions) on a pool of <=4 (thorough 5) objects beyond the root are explored to depth 7 (9) with deduplication on the complete pool + free list. In every state the parent/sibling/first/last links, ArgAt/NumArgs, freed-object unreachability and LIFO slot reuse are compared with a reference tree, and 130 lookup expressions (all prefix forms, 0-3 segments, embedded dual/multi-name bytes, truncated tails) are resolved by the real Find from every live scope and compared with a resolver written from the ACPI search rules; ClosestNamedAncestor likewise.",
+        note="Names {AAAA,BBBB,unnamed}; deeper trees than 5 objects are not explored. Lookup is checked over 'each node's children as its scope' (the property's reading), not through ScopeBlock transparency (see C11 known findings).",
+    ),
+    "C16": dict(
+        engine="graph (E2) + choice (E1)",
+        design_ref="DESIGN.md §3 C16",
+        technique="explicit-state search of the real ring buffer / sink hand-over at scaled sizes (fixed point) and shipped size (bounded depth); bounded-exhaustive enumeration of driver sets through the real hal.DetectHardware",
+        text="Part 1: the real kfmt ring buffer, Printf and SetOutputSink are searched to a fixed point of (rIndex,wIndex,sink) with the ring size constant scaled to 8 and 4, and to depth 4 (5) at the shipped size, against a drop-oldest FIFO reference with labelled bytes (loss, duplication, reordering visible). Part 2: every ordered tuple of <=3 drivers (4 in thorough, reduced alphabet) over kind x outcome x detection order x early-log size is booted through the real DetectHardware; probe order, active set, first-console/first-terminal rule, attachment, state, sink and the exactly-once in-order delivery of the early log ahead of later output are checked; with the real tty.VT the console content is compared differentially with a terminal fed the recorder's stream.",
+        note="Drivers are mocks (plus the real tty.VT); bring-up log lines are matched by tokens, not exact wording; ring sizes 8/4 come from an overlay copy of ringbuf.go with only the constant changed.",
+    ),
+    "C17": dict(
+        engine="graph (E2)",
+        design_ref="DESIGN.md §3 C17",
+        technique="explicit-state BFS of the real tty.VT to a fixed point of reachable states per geometry, against a reference terminal",
+        text="For every console geometry with <=9 (thorough 12) buffer cells (width/height 1..4, scrollback 0..2, tab width {0,1,2,5}) every reachable terminal state under {printable, CR, LF, BS, TAB, multi-byte Write, cursor moves incl. 0 / dim+1 / 2^32-1, activate, deactivate} is visited; after every event cursor, viewport origin and every (char, fg, bg) cell of buffer and scrollback must equal a reference terminal written from the statement; a Go bounds panic (how an out-of-buffer write manifests) is a violation. Two printable symbols are used on smaller geometries and to a bounded depth on larger ones.",
+        note="Colours are the console defaults (no API changes the current colours); the console behind the terminal is a reference grid (shipped drivers: C18/C19).",
+    ),
     "C01": dict(
         engine="graph (E2)",
         design_ref="DESIGN.md §3 C01",
